@@ -33,10 +33,11 @@ type seqEntry struct {
 }
 
 type seqCase struct {
-	sc *seqScen
-	fs string
-	ok bool
-	tr []seqEntry
+	sc  *seqScen
+	fs  string
+	ok  bool
+	err string // error class of the opcode the specification fails at ("" otherwise)
+	tr  []seqEntry
 }
 
 // parseScripts finds the <<"SCRIPTS", [name |-> tokens]>> value in TLC's output.
@@ -190,7 +191,7 @@ func (b *binder) buildSeqSpend(sc *seqScen, scripts map[string][]*Tok) (*spend, 
 		leaves := []txscript.TapLeaf{}
 		idx := map[string]int{}
 		for _, ce := range ctrls {
-			k := fmt.Sprintf("%s/%d", ce.K, ce.B[0])
+			k := fmt.Sprintf("%s/%d", ce.K, treeLeafVersion(ce))
 			if _, ok := idx[k]; ok {
 				continue
 			}
@@ -199,7 +200,7 @@ func (b *binder) buildSeqSpend(sc *seqScen, scripts map[string][]*Tok) (*spend, 
 				return nil, nil, err
 			}
 			idx[k] = len(leaves)
-			leaves = append(leaves, txscript.NewTapLeaf(txscript.TapscriptLeafVersion(ce.B[0]), sb))
+			leaves = append(leaves, txscript.NewTapLeaf(txscript.TapscriptLeafVersion(treeLeafVersion(ce)), sb))
 		}
 		if len(leaves) > 1 {
 			return nil, nil, fmt.Errorf("scenario %s: one proven leaf per scenario supported", sc.name)
@@ -215,7 +216,7 @@ func (b *binder) buildSeqSpend(sc *seqScen, scripts map[string][]*Tok) (*spend, 
 		cc.tapKey = schnorr.SerializePubKey(out)
 		sg.tapPriv = txscript.TweakTaprootPrivKey(*ipriv, root[:])
 		for _, ce := range ctrls {
-			li := idx[fmt.Sprintf("%s/%d", ce.K, ce.B[0])]
+			li := idx[fmt.Sprintf("%s/%d", ce.K, treeLeafVersion(ce))]
 			cb := tree.LeafMerkleProofs[li].ToControlBlock(ipriv.PubKey())
 			good, err := cb.ToBytes()
 			if err != nil {
@@ -239,6 +240,9 @@ func (b *binder) buildSeqSpend(sc *seqScen, scripts map[string][]*Tok) (*spend, 
 				copy(bts[1:33], schnorr.SerializePubKey(b.w.key("K3").PubKey()))
 			case 6:
 				bts = bts[:33]
+			case 7:
+				// the control block claims another leaf version than the tree commits to
+				bts[0] = (bts[0] & 0x01) | byte(ce.B[0])
 			default:
 				return nil, nil, fmt.Errorf("unknown control block variant %d", ce.B[2])
 			}
@@ -374,7 +378,7 @@ func (b *binder) runSeq() error {
 			order = append(order, name)
 		}
 		rv := st["result"]
-		cs := &seqCase{sc: sc, fs: st["fs"].Str(), ok: rv.F("ok").Bool()}
+		cs := &seqCase{sc: sc, fs: st["fs"].Str(), ok: rv.F("ok").Bool(), err: rv.F("err").Str()}
 		for _, e := range rv.F("tr").Seq() {
 			cs.tr = append(cs.tr, seqEntry{st: b.in.elems_(e.F("st")), alt: b.in.elems_(e.F("alt")), cmp: e.F("cmp").Bool(), ph: e.F("ph").Str()})
 		}
@@ -462,7 +466,11 @@ func (b *binder) runSeqCase(cs *seqCase, sp0 *spend, cc *Conc) error {
 			if i > len(cs.tr) {
 				if !cs.ok {
 					key = "seq:" + cs.sc.name + ":step-should-fail"
-					what = fmt.Sprintf("step %d succeeded, the specification stops after %d", i, len(cs.tr))
+					if cs.err == "nullfail-undecodable" {
+						// the same cause as in the program runs: one key for it
+						key = "step-should-fail:OP_CHECKSIG:nullfail-undecodable"
+					}
+					what = fmt.Sprintf("step %d succeeded, the specification stops after %d (%s)", i, len(cs.tr), cs.err)
 				}
 				break
 			}
@@ -530,4 +538,14 @@ func (b *binder) validateTx(sp *spend) (err error) {
 	view := blockchain.NewUtxoViewpoint()
 	view.AddTxOuts(btcutil.NewTx(sp.funding()), 1)
 	return blockchain.ValidateTransactionScripts(btcutil.NewTx(sp.tx()), view, sp.flags, b.sigCache, b.hashCache)
+}
+
+// treeLeafVersion is the leaf version the taproot tree is built with: the one
+// the control block states, except for variant 7 (a control block that states
+// a version the tree does not commit to).
+func treeLeafVersion(ce *Elem) int {
+	if ce.B[2] == 7 {
+		return 0xc0
+	}
+	return ce.B[0]
 }
